@@ -170,9 +170,13 @@ class Draws:
 
     def randbelow(self, bound):
         i = len(self.calls)
+        kind, v = self.first
         if i == 0:
-            kind, v = self.first
-            d = v if kind == "abs" else bound - v     # ("abs", v) -> v ; ("top", v) -> bound - v
+            d = v if kind in ("abs", "zeros") else bound - v     # ("abs", v) -> v ; ("top", v) -> bound - v
+            if kind == "zeros":
+                d = 0
+        elif kind == "zeros" and i < v:
+            d = 0                                      # ("zeros", k): the source answers 0 k times in a row, then 1
         else:
             d = 1 if bound > 1 else 0
         d = max(0, min(bound - 1, d))
@@ -312,6 +316,11 @@ def run_job(job):
             acc.evaluations += 1
             acc.nontrivial += 1
             acc.check("privkey", {"curve": cv, "key": b.hex()}, chk_privkey)
+        for kz in (2, 3, 5):
+            acc.evaluations += 1
+            acc.nontrivial += 1
+            acc.ob("keygen_draw_zero")
+            acc.check("keygen", {"curve": cv, "draw": ["zeros", kz]}, chk_keygen)
         for d in range(0, C.n):
             for kind in ("abs", "top"):
                 if kind == "top" and d == 0:
@@ -383,7 +392,7 @@ def run_job(job):
             acc.evaluations += 1
             acc.nontrivial += 1
             acc.check("privkey", {"key": b.hex()}, chk_privkey)
-        for kind, v in [("abs", 0), ("abs", 1), ("abs", 2), ("top", 2), ("top", 1)]:
+        for kind, v in [("abs", 0), ("abs", 1), ("abs", 2), ("top", 2), ("top", 1), ("zeros", 2), ("zeros", 3), ("zeros", 7)]:
             acc.evaluations += 1
             acc.nontrivial += 1
             if (kind, v) == ("abs", 0):
